@@ -90,6 +90,32 @@ fn run(dir: &std::path::Path, p: &Pop, park: Option<&(String, usize, u64, usize)
     Ok((b, r))
 }
 
+/// (d) the same population and rounds, then a clean shutdown and a fresh process: the
+/// observation of the second lifetime is appended to the first lifetime's result as one more step
+fn run_restart(dir: &std::path::Path, p: &Pop) -> Result<(Built, JobResult), String> {
+    let mut b = build(p, None);
+    b.ops.push(Op::ShutdownSeq);
+    let lives = vec![
+        LifeSpec { ops: b.ops.clone(), snap: SnapMode::Off, fsmon: true },
+        LifeSpec { ops: vec![Op::Observe { queries: suite_q() }], snap: SnapMode::Off, fsmon: true },
+    ];
+    let mut rr = run_lifetimes(dir, &p.cfg, 9, &lives, false)?;
+    let _ = std::fs::remove_dir_all(dir);
+    for r in &rr {
+        if let Some(e) = &r.error {
+            return Err(format!("engine error: {e}"));
+        }
+    }
+    let second = rr.pop().unwrap();
+    let mut first = rr.pop().unwrap();
+    // keep only 'before' and the observation after the restart
+    b.observes.truncate(1);
+    b.observes.push((first.steps.len(), "after clean restart".to_string()));
+    first.steps.extend(second.steps);
+    first.monitor.extend(second.monitor);
+    Ok((b, first))
+}
+
 #[derive(Debug, Clone, Serialize)]
 struct Finding {
     pop: Pop,
@@ -265,6 +291,20 @@ pub fn check(tier: &str) -> i32 {
             }
         }
     }
+    // (d) clean restart after the rounds
+    let pops_d: Vec<&Pop> = pops.iter().enumerate().filter(|(i, _)| tier != "quick" || i % 4 == 0).map(|(_, p)| p).collect();
+    let res_d = par_map(&pops_d, threads(), |i, p| run_restart(&scratch.dir.join(format!("d{i}")), p));
+    for (i, r) in res_d.iter().enumerate() {
+        match r {
+            Err(e) => machinery.push(e.clone()),
+            Ok((b, jr)) => {
+                let (f, n, oc) = judge(pops_d[i], None, b, jr);
+                findings.extend(f);
+                reads += n;
+                outcomes.extend(oc);
+            }
+        }
+    }
     // (c) crash points of compaction rounds, via the C01 machinery
     use Tok::*;
     let crash_hist: Vec<Vec<Tok>> = vec![
@@ -272,6 +312,8 @@ pub fn check(tier: &str) -> i32 {
         vec![Sa, Sb, Flush, Sa, Sb, Flush, Compact],
         vec![Sa, Flush, Sb, Flush, Sa, Sb, Flush, Compact],
         vec![Fill, Fill, Compact, Fill, Fill, Compact],
+        vec![Fill, Fill, Sb, Sa, Flush, Compact],
+        vec![Sb, Flush, Fill, Fill, Compact],
     ];
     let memo = Mutex::new(HashSet::new());
     let stats = Mutex::new(c01::Stats::default());
@@ -353,7 +395,8 @@ pub fn check(tier: &str) -> i32 {
         coverage: json!({
             "states": live_shapes.len() + held,
             "transitions": reads,
-            "traces_validated_against_impl": pops.len() + sched.len() + cst.histories + cst.recoveries,
+            "traces_validated_against_impl": pops.len() + sched.len() + pops_d.len() + cst.histories + cst.recoveries,
+            "populations_followed_through_a_clean_restart": pops_d.len(),
             "samples": pops.iter().step_by((pops.len() / 6).max(1)).take(6).map(|p| json!({"types_per_segment": p.segs, "segments_per_merge": p.cfg.segments_per_merge, "rounds": p.rounds})).collect::<Vec<_>>(),
             "segment_populations": pops.len(),
             "distinct_live_list_shapes": live_shapes.len(),
